@@ -25,7 +25,9 @@ fn main() {
         usage();
     }
     // a panic of code under test is data: silence the default hook output
-    std::panic::set_hook(Box::new(|_| {}));
+    if std::env::var("VERIF_PANIC_TRACE").is_err() {
+        std::panic::set_hook(Box::new(|_| {}));
+    }
     let mut seed = 1u64;
     let mut tier = "quick".to_string();
     let mut outdir = String::new();
